@@ -283,6 +283,8 @@ async fn dial_happy_eyeballs(
             let addr = SocketAddr::new(ip, port);
             dials.push(
                 async move {
+                    #[cfg(iroh_verif)]
+                    use verif_hooks::HookedTcpStream as TcpStream;
                     trace!("connecting TCP stream");
                     let stream = time::timeout(DIAL_ENDPOINT_TIMEOUT, TcpStream::connect(addr))
                         .await
@@ -360,6 +362,56 @@ fn pop_family(addrs: &mut VecDeque<IpAddr>, next_is_v6: &mut bool) -> Option<IpA
     let addr = addrs.remove(idx)?;
     *next_is_v6 = !*next_is_v6;
     Some(addr)
+}
+
+/// Verification hooks, compiled only with `--cfg iroh_verif`.
+#[cfg(iroh_verif)]
+pub mod verif_hooks {
+    use std::{cell::RefCell, future::Future, io, net::SocketAddr, pin::Pin, sync::Arc};
+
+    use iroh_dns::dns::DnsResolver;
+    use tokio::net::TcpStream;
+    use url::Url;
+
+    use super::DialError;
+
+    /// Future returned by a [`Connector`].
+    pub type ConnectFuture = Pin<Box<dyn Future<Output = io::Result<TcpStream>> + Send>>;
+
+    /// Replacement for [`TcpStream::connect`] in the connection attempts of the relay dialer.
+    pub type Connector = Arc<dyn Fn(SocketAddr) -> ConnectFuture + Send + Sync>;
+
+    thread_local! {
+        static CONNECTOR: RefCell<Option<Connector>> = const { RefCell::new(None) };
+    }
+
+    /// Installs (`Some`) or removes (`None`) the connector used by connection attempts that
+    /// are started on this thread. Without a connector they use [`TcpStream::connect`].
+    pub fn set_connector(connector: Option<Connector>) {
+        CONNECTOR.with_borrow_mut(|c| *c = connector);
+    }
+
+    /// Stands in for [`TcpStream`] at the `TcpStream::connect` call of the dialer.
+    pub(super) struct HookedTcpStream;
+
+    impl HookedTcpStream {
+        /// Connects through the installed connector, else through [`TcpStream::connect`].
+        pub(super) fn connect(addr: SocketAddr) -> ConnectFuture {
+            match CONNECTOR.with_borrow(|c| c.clone()) {
+                Some(connector) => connector(addr),
+                None => Box::pin(TcpStream::connect(addr)),
+            }
+        }
+    }
+
+    /// Calls the relay dialer: resolves `url` and races TCP connections, Happy Eyeballs style.
+    pub async fn dial_happy_eyeballs(
+        dns_resolver: &DnsResolver,
+        url: &Url,
+        prefer_ipv6: bool,
+    ) -> Result<TcpStream, DialError> {
+        super::dial_happy_eyeballs(dns_resolver, url, prefer_ipv6).await
+    }
 }
 
 fn url_port(url: &Url) -> Option<u16> {
